@@ -919,6 +919,18 @@ class C20:
         except Exception:
             return set()
 
+    def cached_block_rows(self, srv, height):
+        """(txid, index) of the cache's transaction rows of one block, None when the cache cannot be read."""
+        try:
+            con = sqlite3.connect('file:%s?mode=ro' % srv.cache_uri, uri=True, timeout=0.05)
+            try:
+                return [(r[0].hex(), r[1]) for r in
+                        con.execute('select txid, "index" from cache_transactions where block_height = ?', (height,))]
+            finally:
+                con.close()
+        except Exception:
+            return None
+
     def o_getrawtransaction(self, srv, args, kw, ret, execs):
         w = self.w
         sig = {'method': 'getrawtransaction'}
@@ -999,6 +1011,16 @@ class C20:
         got = [t.txid if is_tx(t) else t for t in ret.transactions]
         if got != want:
             in_block = all(g in b.txids for g in got) and len(set(got)) == len(got)
+            if in_block:
+                # the recorded defect is about cache rows whose index is not the position in the block (and a missing
+                # ORDER BY): when every cached row of this block carries its block position, only the order of the
+                # page's transactions can be explained by it
+                rows = self.cached_block_rows(srv, b.height)
+                if rows is not None and all(b.txids.index(t) == i for t, i in rows if t in b.txids) and \
+                        all(t in b.txids for t, i in rows) and set(got) != set(want):
+                    in_block = False
+                    sig = dict(sig, indexes='right')
+                    w.probe('cached_block_page_wrong_with_right_indexes')
             w.violation('cache_infidelity', dict(sig, cause='cache_index' if in_block else 'other'),
                         'cached block %d page %d limit %d lists %s, stored %s' %
                         (b.height, page, limit, [g[:8] for g in got], [x[:8] for x in want]))
